@@ -1,10 +1,18 @@
 """C03 — queued work never stalls and idleness is reported only when truly idle."""
 from __future__ import annotations
 
-from ..engine import monitors, suite
+from ..engine import c03x, monitors, suite
 from ..runner import Env, Outcome
 
-THEOREMS = ["C03_work_conserving", "C03_idle_reducer_sound", "C03_refuted_timer", "C03_refuted_mailbox", "C03_refuted"]
+THEOREMS = ["C03_work_conserving", "C03_idle_reducer_sound", "C03_refuted_timer", "C03_refuted_mailbox", "C03_refuted",
+            # the runner level: every reachable state of every run, fresh or resumed from whatever state
+            "C03_work_conserving_runner", "C03_rewind_exact", "C03_in_progress_is_live", "C03_full_limit_live",
+            "C03_idle_check_exact", "C03_idle_runner_sound", "C03_idle_exceptions_exact", "C03_refuted_unhandled_batch",
+            "C03_truly_idle_is_quiescent",
+            # the anchored source as found on this run (harness/gen/idle_shape.py -> WfModel/GenIdleShape.lean)
+            "C03_check_idle_is_source", "C03_refill_guard_is_source", "C03_source_shape",
+            # the server side (IdleReleaseDecorator, model M7): what is treated as idle, when a release happens
+            "C03_server_idle_mark_origin", "C03_server_release_needs_mark", "C03_server_release_reads_mark"]
 LEAN_TARGETS = ["WfProps.C03"]
 EXPLANATION = (
     "Work conservation is proved for every tick history (queue non-empty => all num_workers slots busy, until a tick "
@@ -12,9 +20,38 @@ EXPLANATION = (
     "queues and in-progress tables are empty and the run is marked running); the full statement (no scheduled retry, "
     "no delivered-but-unprocessed event) is REFUTED on the faithful runner model by two decide-checked witnesses "
     "(C03_refuted_timer, C03_refuted_mailbox) which the check replays on the real engine: both reproduce and are "
-    "listed as known findings. Any other way of announcing idleness unsoundly, or a stalled queue, is a VIOLATION."
+    "listed as known findings. Any other way of announcing idleness unsoundly, or a stalled queue, is a VIOLATION. "
+    "On the runner LTS (every reachable state of every run, started fresh or resumed from ANY state, every schedule): work conservation "
+    "(C03_work_conserving_runner), the rewind in closed form (C03_rewind_exact: former in-progress rows reversed, then the queue; the first "
+    "min(num_workers, #pending) started in order, the rest queued in order), every in-progress row is backed by a live worker task or its own "
+    "result tick is being reduced or a StopEvent result is (C03_in_progress_is_live; with an empty buffer a step with queued events has exactly "
+    "num_workers live tasks: C03_full_limit_live), the deferred idle check (flag <=> one TickIdleCheck, last in the buffer, never in heap or "
+    "mailbox: C03_idle_check_exact), and the strongest true idle theorem (C03_idle_runner_sound: an announcement is made by the loop only, with "
+    "all queues / in-progress tables empty, NO live worker task, nothing queued by the announcing tick, no step result buffered, and for "
+    "WorkflowIdleEvent an EMPTY buffer), so that the run is not truly idle IFF a delayed retry sits in the timer heap or an addEvent in the "
+    "mailbox (C03_idle_exceptions_exact = exactly the two known findings), and with both empty nothing but the clock can change without external "
+    "input (C03_truly_idle_is_quiescent). For UnhandledEvent(idle=True) the empty-buffer clause is NOT claimed: C03_refuted_unhandled_batch is a "
+    "decide-checked witness (a step that hands collect_events an event of a type it does not accept; two retries due at the same instant) in which "
+    "UnhandledEvent(idle=True) is published with a due retry still in the tick buffer, heap and mailbox empty; it replays on the real engine "
+    "(harness/corpus/c03_unhandled_idle_batch.json, reported, not attached to the check). The quiescence test, both refill-loop conditions, the guard around the step-result refill, has_space, "
+    "the TickIdleCheck / CommandScheduleIdleCheck branches, the buffer-drain loop, the rewind's shape and the server's idle marker "
+    "(WorkflowIdleEvent only; release needs idle_since + idle_timeout elapsed + active; a send to an active run withdraws the mark) are "
+    "re-extracted from the sources on every run and proved to be what the model does (C03_check_idle_is_source, C03_refill_guard_is_source, "
+    "C03_source_shape). Server side on model M7 (WfModel/Lifecycle.lean, tied to the real stack by C26/C36), single-step facts for every state and "
+    "action: idle_since is set only by the engine's idle announcement made with no reducer-visible work and cleared only by a send_event "
+    "(C03_server_idle_mark_origin); the run leaves the active set only in the decision step of a release task that read, under the lock, a mark at "
+    "least idle_timeout old (C03_server_release_needs_mark, C03_server_release_reads_mark). The same four clauses are monitored on the real "
+    "in-process stack (IdleReleaseDecorator over PersistenceDecorator over BasicRuntime) on generated idle workflows."
 )
+TRUSTED_EXTRA = [
+    "harness/gen/idle_shape.py (AST extraction / translation of _check_idle_state, the refill-loop conditions, the idle-check branches and the server's idle marker into WfModel/GenIdleShape.lean)",
+    "harness/gen/lifecycle.py (shapes of idle_release_runtime.py in WfModel/GenLifecycle*.lean, shared with C26 / C36)",
+    "harness/server/{stack,idle}.py: observation wrappers of the in-process server stack (store subclass, lock/spawn proxies, BasicRuntime adapter wrappers), the virtual datetime (shared with C26 / C36)",
+    "harness/engine/live.py: the recording of _ControlLoopRunner internals (tick_buffer, scheduled_wakeups, _pending_workers, _task_keys, _idle_check_pending, receive_queue) at every reducer call",
+]
 ASSUMPTIONS = suite.ENGINE_ASSUMPTIONS + [
+    "server side: the correspondence of model M7 with the real IdleReleaseDecorator stack is C26's / C36's (not repeated here); this check runs the real stack only for its monitors; "
+    "DBOSIdleReleaseDecorator is not covered by C03 (C26 / C36, partial)",
     "reading: a pending wait_for_event timeout is not counted as pending work (the statement lists queued, running and scheduled-retry work)",
 ]
 
@@ -55,7 +92,7 @@ def _resume_runs(env: Env, out: Outcome, n: int) -> None:
         out.count("resume:outcome:" + tr2.outcome[0])
         if pend:
             out.nontrivial(("resume", repr(spec), tuple(tr1.actions)))
-        for v in monitors.mon_c03(tr2):
+        for v in monitors.mon_c03(tr2) + c03x.mon_c03_runner(tr2):
             v.replay = {"resume": {"spec": spec, "seed": seed, "actions1": tr1.actions, "actions2": tr2.actions}}
             out.violations.append(v)
     suite.runner_corr(out, resumed, "engine-runner-resumed")
@@ -64,8 +101,15 @@ def _resume_runs(env: Env, out: Outcome, n: int) -> None:
 def run(env: Env) -> Outcome:
     out = Outcome()
     out.rule = ("direct (state,tick) pairs + live scripted workflows (retry delays, waiters, fan-out) under random gate schedules; runs snapshotted at a quiet point and resumed from JSON; "
-                "non-trivial = more than 2 ticks; distinct by (spec, schedule)")
+                "generated resumed states (as generated / in-progress folded into the queue as from_serialized does / backlog beyond the worker limit / fewer workers than "
+                "in-progress rows) rewound by the real rewind_in_progress and compared with the closed form of C03_rewind_exact (driver op rewindspec) and with the model's rewind; "
+                "the real in-process server stack (IdleReleaseDecorator over PersistenceDecorator over BasicRuntime, virtual time) on generated idle workflows: idle mark only by an "
+                "announcement, withdrawn by a delivery to the resident run, release only on a mark at least idle_timeout old; "
+                "non-trivial = more than 2 ticks (runs), at least 2 pending invocations on a step (rewinds), an idle mark and a send to the resident run (server); "
+                "distinct by (spec, schedule) / state / case")
     suite.direct_corr(env, out, env.budget(3000, 60000))
-    suite.live_runs(env, out, env.budget(400, 8000), [monitors.mon_c03], extra_specs=suite.load_corpus("C03"))
+    suite.live_runs(env, out, env.budget(400, 8000), [monitors.mon_c03, c03x.mon_c03_runner], extra_specs=suite.load_corpus("C03"))
     _resume_runs(env, out, env.budget(150, 3000))
+    c03x.rewind_stream(env, out, env.budget(600, 6000))
+    c03x.server_idle_side(env, out, env.budget(20, 200))
     return out
